@@ -293,7 +293,7 @@ func oracleTags(oracle string) []string {
 	case "answer-count", "answer":
 		return []string{"C09", "C07", "C10"}
 	case "gauge", "orphaned-join", "empty-session-discoverable", "duplicate-session-id", "frame-worker":
-		return []string{"C07"}
+		return []string{"C07", "C03"}
 	case "id", "id-source":
 		return []string{"C10", "C05", "C12", "C04"}
 	case "race":
@@ -301,7 +301,7 @@ func oracleTags(oracle string) []string {
 	case "panic":
 		return []string{"C08", "C09"}
 	case "liveness":
-		return []string{"C11", "C09", "C02"}
+		return []string{"C11", "C09", "C02", "C01"}
 	}
 	return nil
 }
